@@ -60,7 +60,7 @@ def gen_geometry(rng, n, kind, dims=(1, 2, 3), dangling=0.0, uniform=None, force
             p = 0
         else:
             p = int(rng.integers(0, t))
-        ix = f"b{nb}"
+        ix = f"e{nb}"
         nb += 1
         parents[t] = p
         sizes[ix] = newdim()
@@ -351,13 +351,46 @@ def run_one_norm(qbp, flavour, tn, o, n, init_arg, site_tags=None, tol=TOL_RUN, 
     return as_value(r), info, bp
 
 
-def check_converged(info, its):
+class RollingStop(Exception):
+    """run() set converged=True although the last maximal message change is not below tol (the rolling-mean
+    stopping rule fired): reported under its own contract (see check2)"""
+
+
+ROLLING_CONTRACT = ("*BP.run(): converged=True is reported only when the last maximal message change is below tol "
+                    "(damped runs on acyclic networks)")
+
+
+def check_converged(info, its, tol=TOL_RUN):
     if not info.get("converged", False):
         return (f"run() reports no convergence after {info.get('iterations')} of {its} iterations on an acyclic network "
                 f"(max message change {info.get('max_mdiff')})")
     if "converged_attr" in info and not info["converged_attr"]:
         return "info['converged'] is True but bp.converged is False"
+    md = info.get("max_mdiff")
+    if md is not None and float(md) >= tol:
+        raise RollingStop(f"converged=True after {info.get('iterations')} iterations with max message change "
+                          f"{float(md):.3g} >= tol {tol:g} (rolling mean of differences "
+                          f"{info.get('rolling_abs_mean_diff')})")
     return None
+
+
+def _guard(thunk, mode):
+    def f():
+        try:
+            r = thunk()
+        except RollingStop as e:
+            return str(e) if mode == "rolling" else None
+        return None if mode == "rolling" else r
+
+    return f
+
+
+def check2(cx, contract, params, thunk, rolling=True, **kw):
+    """evaluate `thunk` under `contract`; a damped run that stops by the rolling-mean rule with a large message change
+    is reported under ROLLING_CONTRACT instead (same params), so that the two defects stay distinguishable"""
+    cx.check(contract, params, _guard(thunk, "main"), **kw)
+    if rolling and params.get("damping", 0.0):
+        cx.check(ROLLING_CONTRACT, params, _guard(thunk, "rolling"), **kw)
 
 
 ONE_NORM = ["D1BP", "HD1BP", "HV1BP", "L1BP"]
@@ -445,7 +478,7 @@ def one_norm_value(cx):
                     init_arg = fill
                 got, info, bp = run_one_norm(qbp, flavour, tn, o, len(inds), init_arg, site_tags,
                                              tol=None if single else TOL_RUN)
-                e = check_converged(info, max_its(o, len(inds)))
+                e = check_converged(info, max_its(o, len(inds)), 5e-6 if single else TOL_RUN)
                 if e:
                     return e
                 e = cmp_value(got, ref.value, ref.zabs, RTOL_SINGLE if single else RTOL, f"{flavour} value")
@@ -455,9 +488,8 @@ def one_norm_value(cx):
                     return "the input network was modified (inplace=False)"
                 return None
 
-            cx.check("contract_*1bp / *1BP.run().contract(): converges and equals the sum over all labels of the product "
-                     "of the tensors (x 10**exponent) on an acyclic network", params, thunk,
-                     nontrivial=n > 1)
+            check2(cx, "contract_*1bp / *1BP.run().contract(): converges and equals the sum over all labels of the product "
+                   "of the tensors (x 10**exponent) on an acyclic network", params, thunk, nontrivial=n > 1)
 
 
 # ----------------------------------------------------------------------------------------------
@@ -488,20 +520,28 @@ def hyper_messages(qbp, flavour, tn, o, n):
 
     kw = dict(damping=o["damping"])
     its = max_its(o, n)
+    info = {}
     if o["interface"] == "run_function":
         if flavour == "HD1BP":
-            ms, conv = m_hd.run_belief_propagation_hd1bp(tn, max_iterations=its, tol=TOL_RUN, progbar=False, **kw)
+            ms, conv = m_hd.run_belief_propagation_hd1bp(tn, max_iterations=its, tol=TOL_RUN, progbar=False, info=info,
+                                                         **kw)
         else:
             if o["normalize"] != "default":
                 kw["normalize"] = o["normalize"]
-            ms, conv = m_hv.run_belief_propagation_hv1bp(tn, max_iterations=its, tol=TOL_RUN, progbar=False, **kw)
+            ms, conv = m_hv.run_belief_propagation_hv1bp(tn, max_iterations=its, tol=TOL_RUN, progbar=False, info=info,
+                                                         **kw)
+        if bool(conv) != bool(info.get("converged")):
+            raise ValueError("returned convergence flag differs from info['converged']")
+        check_converged(info, its)
         return ms, conv
     kw = run_kwargs(o)
     if flavour == "HD1BP":
         bp = qbp.HD1BP(tn, **kw)
     else:
         bp = qbp.HV1BP(tn, **kw)
-    bp.run(max_iterations=its, tol=TOL_RUN, progbar=False)
+    bp.run(max_iterations=its, tol=TOL_RUN, progbar=False, info=info)
+    if info.get("converged"):
+        check_converged(info, its)
     ms = bp.messages if flavour == "HD1BP" else bp.get_messages_dense()
     return ms, bp.converged
 
@@ -551,8 +591,8 @@ def one_norm_marginals(cx):
                     return e
             return None
 
-        cx.check("index marginals read from converged hyper BP messages == brute-force marginals of the joint",
-                 params, thunk, nontrivial=n > 1)
+        check2(cx, "index marginals read from converged hyper BP messages == brute-force marginals of the joint",
+               params, thunk, nontrivial=n > 1)
 
         cnt = {}
         for ii in inds:
@@ -578,9 +618,9 @@ def one_norm_marginals(cx):
                         return e
                 return None
 
-            cx.check("compute_tensor_marginal from converged hyper BP messages == brute-force marginal of the joint over "
-                     "the labels of the tensor", dict(params, tensors_with_outer_label=with_outer), tthunk,
-                     nontrivial=n > 1)
+            check2(cx, "compute_tensor_marginal from converged hyper BP messages == brute-force marginal of the joint over "
+                   "the labels of the tensor", dict(params, tensors_with_outer_label=with_outer), tthunk, rolling=False,
+                   nontrivial=n > 1)
 
         if data != "pos":
             continue
@@ -623,3 +663,729 @@ def one_norm_marginals(cx):
 
         cx.check("sample_h*1bp: configuration in range, tn_config carries its weight, omega == exact probability",
                  sparams, sthunk, nontrivial=n > 1)
+
+
+# ----------------------------------------------------------------------------------------------
+# two-norm flavours: norm, marginals of |psi|^2, reduced density matrices, sampling
+# ----------------------------------------------------------------------------------------------
+
+def bond_conditioning(inds, sizes, arrays):
+    """smallest ratio (least / largest singular value) over all bonds and both sides of the matrix
+    [bond label x outer labels of the side] obtained by contracting one side of the cut tree: the exact BP message
+    into the other side is its Gram matrix.  1.0 for networks without bonds."""
+    holders = {}
+    for t, ii in enumerate(inds):
+        for ix in ii:
+            holders.setdefault(ix, []).append(t)
+    worst = 1.0
+    for ix, hs in holders.items():
+        if len(hs) != 2:
+            continue
+        for start in hs:
+            side, stack = {start}, [start]
+            while stack:
+                t = stack.pop()
+                for jx in inds[t]:
+                    if jx == ix:
+                        continue
+                    for u in holders[jx]:
+                        if u not in side:
+                            side.add(u)
+                            stack.append(u)
+            side = sorted(side)
+            sub_inds = [inds[t] for t in side]
+            labels = {jx: sizes[jx] for ii in sub_inds for jx in ii}
+            r = Ref(sub_inds, labels, [arrays[t] for t in side])
+            outer = [jx for jx in r.outer() if jx != ix]
+            M = r.psi([ix] + outer).reshape(sizes[ix], -1)
+            sv = np.linalg.svd(M, compute_uv=False)
+            ratio = 0.0 if len(sv) < sizes[ix] else float(sv[-1] / sv[0]) if sv[0] > 0 else 0.0
+            worst = min(worst, ratio)
+    return worst
+
+
+def make_two_norm_case(seed, flavour, kind, n, data, vector_like=None, single=None, phys2=False):
+    rng = np.random.default_rng(seed)
+    if single is None:
+        single = bool(rng.random() < 0.12)
+    if vector_like is None:
+        vector_like = bool(rng.integers(0, 2))
+    exponent = float(rng.choice([0.0, 0.0, 0.7, -0.7]))
+    dangling = float(rng.choice([0.0, 0.4, 0.8]))
+    for _ in range(20):
+        inds, sizes, ncomp, parents = gen_geometry(rng, n, kind, dangling=dangling, force_dangling=vector_like)
+        if phys2:
+            for ix in sizes:
+                if ix[0] == "k":
+                    sizes[ix] = 2
+        dtype = dtype_for(data, single)
+        arrays = [gen_data(rng, [sizes[ix] for ix in ii], data, dtype) for ii in inds]
+        ref = Ref(inds, sizes, arrays, exponent)
+        out = ref.outer()
+        psi = ref.psi(out)
+        norm2 = float(np.sum(np.abs(psi) ** 2))
+        # the norm must not be a near-cancellation of the bond sums
+        if norm2 > 0 and np.sqrt(norm2) >= 1e-3 * ref.zabs / np.sqrt(max(psi.size, 1)) * 1e-2:
+            break
+    else:
+        return None
+    o = draw_opts(rng, flavour)
+    groups = lazy_groups(rng, parents, len(inds)) if flavour == "L2BP" else None
+    init = "default"
+    if flavour == "D2BP":
+        init = str(rng.choice(["default", "default", "supplied", "partial"]))
+    mseed = int(rng.integers(1 << 30))
+    shrinkable = False
+    for ix in sizes:
+        holders = [ii for ii in inds if ix in ii]
+        if len(holders) == 2:
+            for ii in holders:
+                other = int(np.prod([sizes[jx] for jx in ii if jx != ix], dtype=int))
+                if other < sizes[ix]:
+                    shrinkable = True
+    params = dict(flavour=flavour, kind=kind, n=n, data=data, dtype=dtype, exponent=exponent, vector_like=vector_like,
+                  n_outer=len(out), size1_labels=sum(1 for v in sizes.values() if v == 1), init=init, seed=seed,
+                  shrinkable=shrinkable, **o)
+    if groups is not None:
+        params["n_groups"] = len(set(groups))
+    params["full_rank_bonds"] = bool(bond_conditioning(inds, sizes, arrays) >= 1e-3)
+    return dict(inds=inds, sizes=sizes, arrays=arrays, ref=ref, out=out, psi=psi, norm2=norm2, o=o, groups=groups,
+                init=init, mseed=mseed, dtype=dtype, single=single, exponent=exponent, params=params, parents=parents,
+                vector_like=vector_like)
+
+
+def supplied_messages_2norm(tn, mseed, dtype, partial):
+    """random hermitian positive definite initial messages keyed (label, destination tid)"""
+    r = np.random.default_rng(mseed)
+    ms = {}
+    cplx = "complex" in dtype
+    for ix, tids in tn.ind_map.items():
+        if len(tids) != 2:
+            continue
+        for tid in tids:
+            d = tn.ind_size(ix)
+            a = r.normal(size=(d, d)) + (1j * r.normal(size=(d, d)) if cplx else 0.0)
+            m = (a @ a.conj().T + 0.3 * np.eye(d)).astype(dtype)
+            if partial and r.random() < 0.5:
+                continue
+            ms[ix, tid] = m
+    return ms
+
+
+def two_norm_bp(qbp, c, tn, tol=TOL_RUN, site_tags=None):
+    """a converged D2BP / L2BP instance for the case c (class interface); returns (bp, info)"""
+    o = c["o"]
+    kw = run_kwargs(o)
+    info = {}
+    its = max_its(o, len(c["inds"]))
+    if c["params"]["flavour"] == "D2BP":
+        if c["init"] != "default":
+            kw["messages"] = supplied_messages_2norm(tn, c["mseed"], c["dtype"], c["init"] == "partial")
+        bp = qbp.D2BP(tn, **kw)
+    else:
+        bp = qbp.L2BP(tn, site_tags=site_tags or sorted({f"G{g}" for g in c["groups"]}), **kw)
+    bp.run(max_iterations=its, info=info, progbar=False, **({} if tol is None else dict(tol=tol)))
+    info["converged_attr"] = bool(bp.converged)
+    return bp, info
+
+
+def as_vector_tn(qtn, tn, n):
+    return tn.view_as_(qtn.TensorNetworkGenVector, sites=list(range(n)), site_tag_id="I{}", site_ind_id="k{}")
+
+
+def ref_rdm(psi, out, keep):
+    pos = [out.index(ix) for ix in keep]
+    x = np.moveaxis(psi, pos, list(range(len(pos))))
+    D = int(np.prod(x.shape[:len(pos)], dtype=int))
+    M = x.reshape(D, -1)
+    rho = M @ M.conj().T
+    return rho / np.trace(rho)
+
+
+@driver("C14", "two-norm-value-and-marginals", chunks=6, timeout=200,
+        bound="D2BP / L2BP (contract_* functions, class .run()/.contract()) on random acyclic networks: chains, stars, "
+              "trees, forests, 1..9 tensors, bond and outer dimensions 1..3, 0..2 outer labels per tensor or exactly one "
+              "site label per tensor, lazy groups for L2BP; positive / signed / complex data, float64/complex128 "
+              "(tol=1e-11, rtol 1e-6) and float32/complex64 (default tol, rtol 3e-3), stored exponent 0 / +-0.7; options as "
+              "in one-norm-value-on-trees; D2BP initial messages default / supplied random positive definite / partly "
+              "supplied.  Norm^2 == sum |psi|^2 of the dense state; D2BP.compute_marginal == marginal of |psi|^2; "
+              "D2BP.partial_trace (one site, two adjacent sites, normalised) and L2BP.partial_trace(site) == psi psi^+ "
+              "traced over the rest")
+def two_norm_value(cx):
+    import quimb.tensor as qtn
+    import quimb.tensor.belief_propagation as qbp
+
+    reps = 1 if cx.quick else 5
+    sizes_n = [1, 2, 3, 4, 6, 9] if cx.quick else list(range(1, 10))
+    for flavour, kind, n, data, rep in itertools.product(["D2BP", "L2BP"], KINDS_SIMPLE, sizes_n,
+                                                         ["pos", "signed", "complex"], range(reps)):
+        if not cx.mine():
+            continue
+        if cx.out_of_time():
+            cx.inconclusive.append("two-norm-value-and-marginals: time budget exhausted")
+            return
+        seed = int(cx.rng.integers(1 << 31))
+        c = make_two_norm_case(seed, flavour, kind, n, data)
+        if c is None:
+            continue
+        params = c["params"]
+
+        def thunk(c=c, flavour=flavour):
+            o = c["o"]
+            tn = build_tn(qtn, c["inds"], c["sizes"], c["arrays"], c["exponent"], groups=c["groups"])
+            before = [t.data.copy() for t in tn]
+            rtol = RTOL_SINGLE if c["single"] else RTOL
+            want = c["norm2"]
+            if o["interface"] == "function":
+                kw = run_kwargs(o)
+                info = {}
+                if flavour == "D2BP":
+                    if c["init"] != "default":
+                        kw["messages"] = supplied_messages_2norm(tn, c["mseed"], c["dtype"], c["init"] == "partial")
+                    fn = qbp.contract_d2bp
+                else:
+                    kw["site_tags"] = sorted({f"G{g}" for g in c["groups"]})
+                    fn = qbp.contract_l2bp
+                if not c["single"]:
+                    kw["tol"] = TOL_RUN
+                got = as_value(fn(tn, max_iterations=max_its(o, len(c["inds"])), strip_exponent=o["strip_exponent"],
+                                  info=info, progbar=False, **kw))
+            else:
+                bp, info = two_norm_bp(qbp, c, tn, tol=None if c["single"] else TOL_RUN)
+                got = as_value(bp.contract(strip_exponent=o["strip_exponent"]))
+            e = check_converged(info, max_its(o, len(c["inds"])), 5e-6 if c["single"] else TOL_RUN)
+            if e:
+                return e
+            e = cmp_value(got, want, want, rtol, f"{flavour} norm^2")
+            if e:
+                return e
+            if any(not np.array_equal(a, t.data) for a, t in zip(before, tn)):
+                return "the input network was modified (inplace=False)"
+            return None
+
+        check2(cx, "contract_*2bp / *2BP.run().contract(): converges and equals sum |psi|^2 of the dense state "
+               "(x 10**(2 exponent)) on an acyclic network", params, thunk, nontrivial=n > 1)
+
+        if c["single"] or not c["out"]:
+            continue
+
+        if flavour == "D2BP":
+            def mthunk(c=c):
+                tn = build_tn(qtn, c["inds"], c["sizes"], c["arrays"], c["exponent"])
+                bp, info = two_norm_bp(qbp, c, tn)
+                e = check_converged(info, 0)
+                if e:
+                    return e
+                p2 = np.abs(c["psi"]) ** 2
+                for q, ix in enumerate(c["out"]):
+                    r = p2.sum(axis=tuple(a for a in range(p2.ndim) if a != q))
+                    r = r / r.sum()
+                    e = cmp_array(bp.compute_marginal(ix), r, RTOL, f"compute_marginal({ix})", scale=1.0)
+                    if e:
+                        return e
+                return None
+
+            check2(cx, "D2BP.compute_marginal(ind) == marginal of |psi|^2 of the dense state", params, mthunk,
+                   rolling=False, nontrivial=n > 1)
+
+        if not c["vector_like"]:
+            continue
+
+        def pthunk(c=c, flavour=flavour):
+            nn = len(c["inds"])
+            tn = build_tn(qtn, c["inds"], c["sizes"], c["arrays"], c["exponent"], groups=c["groups"])
+            as_vector_tn(qtn, tn, nn)
+            bp, info = two_norm_bp(qbp, c, tn, site_tags=[f"I{s}" for s in range(nn)])
+            e = check_converged(info, 0)
+            if e:
+                return e
+            if flavour == "L2BP":  # partial_trace(site) of the lazy flavour: one tensor per site here
+                for s in range(nn):
+                    if f"I{s}" not in bp.neighbors:
+                        continue
+                    rho = bp.partial_trace(s)
+                    e = cmp_array(rho, ref_rdm(c["psi"], c["out"], [f"k{s}"]), RTOL, f"L2BP.partial_trace({s})", scale=1.0)
+                    if e:
+                        return e
+                return None
+            wheres = [(s,) for s in range(nn)]
+            for s, p in enumerate(c["parents"]):
+                if p is not None:
+                    wheres.append((s, p) if s % 2 else (p, s))
+            for w in wheres:
+                rho = bp.partial_trace(w)
+                e = cmp_array(rho, ref_rdm(c["psi"], c["out"], [f"k{s}" for s in w]), RTOL, f"D2BP.partial_trace({w})",
+                              scale=1.0)
+                if e:
+                    return e
+            return None
+
+        check2(cx, "*2BP.partial_trace (single sites; D2BP also adjacent pairs) == reduced density matrix of the dense "
+               "state", params, pthunk, rolling=False, nontrivial=n > 1)
+
+
+# ----------------------------------------------------------------------------------------------
+# gauging / compression with converged messages and no truncation
+# ----------------------------------------------------------------------------------------------
+
+def ref_of_tn(tn):
+    """brute-force reference of a quimb network from the raw data of its tensors"""
+    inds = [list(t.inds) for t in tn]
+    sizes = {}
+    for t in tn:
+        for ix, d in zip(t.inds, t.shape):
+            if sizes.setdefault(ix, int(d)) != int(d):
+                raise ValueError(f"label {ix} has two different sizes in the result ({sizes[ix]} and {d})")
+    return Ref(inds, sizes, [np.asarray(t.data) for t in tn], float(np.real(tn.exponent)))
+
+
+def dense_by_einsum(tn, out):
+    """dense tensor of a quimb network over the labels `out` (all others summed) by one numpy einsum over the raw
+    tensor data, times 10**exponent; checks that every label has one size"""
+    ids, sizes, ops = {}, {}, []
+    for t in tn:
+        for ix, d in zip(t.inds, t.shape):
+            if sizes.setdefault(ix, int(d)) != int(d):
+                raise ValueError(f"label {ix} has two different sizes in the result ({sizes[ix]} and {d})")
+            ids.setdefault(ix, len(ids))
+        ops += [np.asarray(t.data), [ids[ix] for ix in t.inds]]
+    if len(ids) > 52:
+        raise ValueError("too many labels for numpy einsum")
+    cnt = {}
+    for t in tn:
+        for ix in t.inds:
+            cnt[ix] = cnt.get(ix, 0) + 1
+    outer = sorted(ix for ix, k in cnt.items() if k == 1)
+    x = np.einsum(*ops, [ids[ix] for ix in out], optimize="greedy") if all(ix in ids for ix in out) else None
+    return x if x is None else x * 10.0 ** float(np.real(tn.exponent)), outer
+
+
+def same_state(tn_new, out, psi, rtol, what):
+    """the network tn_new denotes the dense tensor psi over the outer labels `out`"""
+    got, outer = dense_by_einsum(tn_new, out)
+    if outer != sorted(out):
+        return f"{what}: outer labels {outer} != {sorted(out)}"
+    return cmp_array(got, psi, rtol, f"{what}: dense tensor after the operation")
+
+
+GAUGE_ROUTES_D2 = ["gauge_all('bp')", "gauge_all_belief_propagation", "gauge_all_belief_propagation_", "gauge_d2bp",
+                   "compress_d2bp", "D2BP.compress", "D2BP.compress(inplace)", "D2BP.gauge_symmetric",
+                   "D2BP.gauge_insert+inverse", "D2BP.gauge_temp", "tn.gauge_insert(bp)+inverse"]
+GAUGE_ROUTES_L2 = ["compress_l2bp", "compress_l2bp(lazy)", "L2BP.compress"]
+
+
+@driver("C14", "bp-gauging-and-compression-untruncated", chunks=6, timeout=200,
+        bound="networks as in two-norm-value-and-marginals (1..8 tensors, double precision, incl. rank-deficient bonds); "
+              "messages converged with tol=1e-11 and max_iterations >> diameter (damping {0,0.3}, both update orders, "
+              "local_convergence on/off); gauge_all('bp') / gauge_all_belief_propagation(_) / gauge_d2bp / compress_d2bp / "
+              "D2BP.compress / gauge_symmetric (max_bond=None, cutoff=0) / D2BP.gauge_insert + returned inverses / "
+              "gauge_temp / TensorNetwork.gauge_insert(bp) on a sub-network / compress_l2bp / L2BP.compress: the dense tensor "
+              "over the outer labels is unchanged (rtol 1e-6 of its largest entry), inplace=False leaves the input untouched; "
+              "D2BP.gate_ without truncation == the gate applied to the dense state; D1BP / HD1BP.get_gauged_tn on closed "
+              "trees: value unchanged and product of the first entries == exact value")
+def gauging(cx):
+    import quimb.tensor as qtn
+    import quimb.tensor.belief_propagation as qbp
+
+    reps = 1 if cx.quick else 4
+    sizes_n = [1, 2, 3, 5, 8] if cx.quick else list(range(1, 9))
+    for kind, n, data, rep in itertools.product(KINDS_SIMPLE, sizes_n, ["pos", "signed", "complex"], range(reps)):
+        seed = int(cx.rng.integers(1 << 31))
+        cD = make_two_norm_case(seed, "D2BP", kind, n, data, single=False)
+        cL = make_two_norm_case(seed + 7, "L2BP", kind, n, data, single=False)
+        for c, routes in ((cD, GAUGE_ROUTES_D2), (cL, GAUGE_ROUTES_L2)):
+            if c is None:
+                continue
+            c["o"]["damping"] = min(c["o"]["damping"], 0.3)
+            c["params"]["damping"] = c["o"]["damping"]
+            for route in routes:
+                if ("insert" in route or "gauge_temp" in route) and not c["params"]["full_rank_bonds"]:
+                    continue  # inverse square roots of singular messages: ill-conditioned by construction
+                if not cx.mine():
+                    continue
+                if cx.out_of_time():
+                    cx.inconclusive.append("bp-gauging-and-compression-untruncated: time budget exhausted")
+                    return
+                params = dict(c["params"], route=route)
+                for k in ("strip_exponent", "interface", "init"):
+                    params.pop(k, None)
+
+                def thunk(c=c, route=route):
+                    o = c["o"]
+                    nn = len(c["inds"])
+                    tn = build_tn(qtn, c["inds"], c["sizes"], c["arrays"], c["exponent"], groups=c["groups"])
+                    before = [t.data.copy() for t in tn]
+                    psi = c["psi"]
+                    out = c["out"]
+                    kw = run_kwargs(o)
+                    its = max_its(o, nn)
+                    info = {}
+                    run = dict(max_iterations=its, tol=TOL_RUN, info=info)
+                    inplace = False
+                    if route == "gauge_all('bp')":
+                        new = tn.gauge_all("bp", **run, **kw)
+                    elif route == "gauge_all_belief_propagation":
+                        new = tn.gauge_all_belief_propagation(**run, **kw)
+                    elif route == "gauge_all_belief_propagation_":
+                        new = tn.gauge_all_belief_propagation_(**run, **kw)
+                        inplace = True
+                    elif route == "gauge_d2bp":
+                        new = qbp.gauge_d2bp(tn, **run, **kw)
+                    elif route == "compress_d2bp":
+                        new = qbp.compress_d2bp(tn, max_bond=None, cutoff=0.0, **run, **kw)
+                    elif route.startswith("compress_l2bp"):
+                        new = qbp.compress_l2bp(tn, max_bond=None, cutoff=0.0, lazy="lazy" in route,
+                                                site_tags=sorted({f"G{g}" for g in c["groups"]}), **run, **kw)
+                    else:
+                        bp, info = two_norm_bp(qbp, c, tn)
+                        if route == "L2BP.compress":
+                            new = bp.compress(tn.copy(), max_bond=None, cutoff=0.0)
+                        elif route == "D2BP.compress":
+                            new = bp.compress(max_bond=None, cutoff=0.0)
+                        elif route == "D2BP.compress(inplace)":
+                            new = bp.compress(max_bond=None, cutoff=0.0, inplace=True)
+                            if new is not bp.tn:
+                                return "compress(inplace=True) did not return the network of the BP object"
+                        elif route == "D2BP.gauge_symmetric":
+                            new = bp.gauge_symmetric()
+                        else:
+                            # insertion of sqrt(messages) on the boundary of a sub-network and removal again
+                            pick = [q for q in range(nn) if q % 2 == 0]
+                            sub = bp.tn.select_any([f"I{q}" for q in pick], virtual=False)
+                            sub_before = [(t.inds, t.data.copy()) for t in sub]
+                            if route == "D2BP.gauge_insert+inverse":
+                                outer = bp.gauge_insert(sub)
+                                for t, ix, minv in outer:
+                                    t.gate_(minv, ix)
+                            elif route == "tn.gauge_insert(bp)+inverse":
+                                outer = sub.gauge_insert(bp, smudge=1e-12, return_gauges="inverse")
+                                for t, ix, minv in outer:
+                                    t.gate_(minv, ix)
+                            else:
+                                with bp.gauge_temp(sub) as outer:
+                                    pass
+                            for (ii, a), t in zip(sub_before, sub):
+                                if t.inds != ii:
+                                    return f"labels changed {ii} -> {t.inds}"
+                                e = cmp_array(t.data, a, 1e-6, f"{route}: tensor {ii} after insertion and removal",
+                                              scale=float(np.abs(a).max()))
+                                if e:
+                                    return e
+                            e = check_converged(info, its)
+                            return e
+                    e = check_converged(info, its)
+                    if e:
+                        return e
+                    if inplace:
+                        if new is not tn:
+                            return "the in-place spelling returned another object"
+                    elif any(not np.array_equal(a, t.data) for a, t in zip(before, tn)) or tn.num_tensors != nn:
+                        return "inplace=False but the input network was modified"
+                    return same_state(new, out, psi, 1e-6, route)
+
+                check2(cx, "BP gauging / compression with converged messages, max_bond=None, cutoff=0: the dense tensor "
+                       "over the outer labels is unchanged", params, thunk, nontrivial=n > 1)
+
+        # D2BP.gate_ without truncation on vector-like networks
+        cG = make_two_norm_case(seed + 13, "D2BP", kind, n, data, vector_like=True, single=False)
+        if cG is not None and cG["params"]["full_rank_bonds"] and cx.mine():
+            grng = np.random.default_rng(seed + 14)
+            pairs = [(s, p) for s, p in enumerate(cG["parents"]) if p is not None]
+            where = pairs[int(grng.integers(len(pairs)))] if pairs and grng.random() < 0.8 else (int(grng.integers(n)),)
+            if len(where) == 2 and grng.random() < 0.5:
+                where = where[::-1]
+            D = int(np.prod([cG["sizes"][f"k{s}"] for s in where], dtype=int))
+            G = grng.normal(size=(D, D)) + (1j * grng.normal(size=(D, D)) if data == "complex" else 0.0)
+            cG["o"]["damping"] = min(cG["o"]["damping"], 0.3)
+            params = dict(cG["params"], damping=cG["o"]["damping"], where=list(where), n_gate_sites=len(where))
+            for k in ("strip_exponent", "interface"):
+                params.pop(k, None)
+
+            def gthunk(c=cG, where=where, G=G):
+                nn = len(c["inds"])
+                tn = build_tn(qtn, c["inds"], c["sizes"], c["arrays"], c["exponent"])
+                as_vector_tn(qtn, tn, nn)
+                bp, info = two_norm_bp(qbp, c, tn)
+                e = check_converged(info, 0)
+                if e:
+                    return e
+                bp.gate_(G, where, max_bond=None, cutoff=0.0)
+                out = c["out"]
+                pos = [out.index(f"k{s}") for s in where]
+                x = np.moveaxis(c["psi"], pos, list(range(len(pos))))
+                shp = x.shape
+                y = (G @ x.reshape(G.shape[1], -1)).reshape(shp)
+                want = np.moveaxis(y, list(range(len(pos))), pos)
+                e = same_state(bp.tn, out, want, 1e-6, f"D2BP.gate_(G, {where})")
+                if e:
+                    return e
+                # messages were updated by gate_: BP re-converges to the norm of the new state
+                info2 = {}
+                bp.run(max_iterations=max_its(c["o"], nn), tol=TOL_RUN, info=info2)
+                e = check_converged(info2, 0)
+                if e:
+                    return e
+                n2 = float(np.sum(np.abs(want) ** 2))
+                return cmp_value(as_value(bp.contract()), n2, n2, RTOL, "norm^2 after gate_ and re-convergence")
+
+            check2(cx, "D2BP.gate_(G, where) without truncation == G applied to the dense state; BP then gives its norm",
+                   params, gthunk, nontrivial=n > 1)
+
+        # one-norm gauged networks (closed trees)
+        for flavour in ("D1BP", "HD1BP"):
+            if data == "complex" or not cx.mine():
+                continue
+            c1 = make_one_norm_case(seed + 21, "D1BP", kind, n, data)
+            if c1 is None:
+                continue
+            inds, sizes, arrays, ref, o, init, fill, groups, mrng, dtype, single, exponent, p1 = c1
+            if single or p1["n_scalars"] == len(inds):
+                continue
+            params = dict(flavour=flavour, kind=kind, n=n, data=data, exponent=exponent, seed=seed + 21,
+                          damping=o["damping"], update=o["update"], n_scalars=p1["n_scalars"],
+                          size1_labels=p1["size1_labels"])
+            if flavour == "D1BP":
+                params["local_convergence"] = o["local_convergence"]
+
+            def g1thunk(inds=inds, sizes=sizes, arrays=arrays, ref=ref, o=o, exponent=exponent, flavour=flavour):
+                tn = build_tn(qtn, inds, sizes, arrays, exponent)
+                kw = dict(damping=o["damping"], update=o["update"])
+                if flavour == "D1BP":
+                    kw["local_convergence"] = o["local_convergence"]
+                bp = (qbp.D1BP if flavour == "D1BP" else qbp.HD1BP)(tn, **kw)
+                info = {}
+                bp.run(max_iterations=max_its(o, len(inds)), tol=TOL_RUN, info=info)
+                e = check_converged(info, 0)
+                if e:
+                    return e
+                g = bp.get_gauged_tn()
+                val, _ = dense_by_einsum(g, [])
+                e = cmp_value(complex(val), ref.value, ref.zabs, 1e-6, "value of the gauged network")
+                if e:
+                    return e
+                z0 = 10.0 ** float(np.real(g.exponent))
+                for t in g:
+                    z0 = z0 * np.asarray(t.data).reshape(-1)[0]
+                return cmp_value(complex(z0), ref.value, ref.zabs, 1e-6, "product of the first entries of the gauged tensors")
+
+            check2(cx, "*1BP.get_gauged_tn() on a closed tree: same value, and the product of the first entries of the "
+                   "tensors is the exact value", params, g1thunk, nontrivial=n > 1)
+
+
+# ----------------------------------------------------------------------------------------------
+# sampling from |psi|^2 by D2BP decimation
+# ----------------------------------------------------------------------------------------------
+
+@driver("C14", "two-norm-sampling", chunks=3, timeout=200,
+        bound="sample_d2bp on acyclic vector-like networks (one site label per tensor, 1..7 tensors, bonds 1..3, site "
+              "dimension 2 everywhere or mixed 1..3), positive / signed / complex data, double precision, tol=1e-11, "
+              "max_iterations >> diameter, local_convergence on/off, both update orders, bias None / 2: configuration in "
+              "range over all outer labels, tn_config == the selected amplitude, omega == product of the exact (biased) "
+              "conditional probabilities of |psi|^2 in the order of decimation (rtol 1e-6)")
+def two_norm_sampling(cx):
+    import quimb.tensor as qtn
+    import quimb.tensor.belief_propagation as qbp
+
+    reps = 1 if cx.quick else 5
+    sizes_n = [1, 2, 4, 7] if cx.quick else list(range(1, 8))
+    for kind, n, data, phys2, rep in itertools.product(KINDS_SIMPLE, sizes_n, ["pos", "signed", "complex"], [True, False],
+                                                       range(reps)):
+        if not cx.mine():
+            continue
+        if cx.out_of_time():
+            cx.inconclusive.append("two-norm-sampling: time budget exhausted")
+            return
+        seed = int(cx.rng.integers(1 << 31))
+        c = make_two_norm_case(seed, "D2BP", kind, n, data, vector_like=True, single=False, phys2=phys2)
+        if c is None:
+            continue
+        rng = np.random.default_rng(seed + 3)
+        lc = bool(rng.integers(0, 2))
+        update = str(rng.choice(["sequential", "parallel"]))
+        bias = None if rng.random() < 0.6 else 2.0
+        sseed = int(rng.integers(1 << 30))
+        all2 = all(c["sizes"][ix] == 2 for ix in c["out"])
+        params = dict(kind=kind, n=n, data=data, exponent=c["exponent"], seed=seed, local_convergence=lc, update=update,
+                      bias=bias, all_phys_dim_2=all2, size1_labels=c["params"]["size1_labels"])
+
+        def thunk(c=c, lc=lc, update=update, bias=bias, sseed=sseed):
+            nn = len(c["inds"])
+            tn = build_tn(qtn, c["inds"], c["sizes"], c["arrays"], c["exponent"])
+            config, tnc, omega = qbp.sample_d2bp(tn, max_iterations=60 + 10 * nn, tol=TOL_RUN, seed=sseed, bias=bias,
+                                                 local_convergence=lc, update=update, progbar=False)
+            out = c["out"]
+            if set(config) != set(out):
+                return f"sampled labels {sorted(config)} != outer labels {sorted(out)}"
+            p2 = np.abs(c["psi"]) ** 2
+            fixed = {}
+            om = 1.0
+            for ix, v in config.items():  # dictionary order == order of decimation
+                v = int(v)
+                q = out.index(ix)
+                if not 0 <= v < p2.shape[q]:
+                    return f"value {v} of label {ix} outside [0,{p2.shape[q]})"
+                sel = tuple(fixed.get(a, slice(None)) for a in range(p2.ndim))
+                rest = p2[sel]
+                axes = [a for a in range(p2.ndim) if a not in fixed]
+                pm = rest.sum(axis=tuple(k for k, a in enumerate(axes) if a != q))
+                pm = pm / pm.sum()
+                if bias is not None:
+                    pm = pm ** bias
+                    pm = pm / pm.sum()
+                om *= float(pm[v])
+                fixed[q] = v
+            amp = c["psi"][tuple(fixed[a] for a in range(p2.ndim))]
+            got_amp, _ = dense_by_einsum(tnc, [])
+            e = cmp_value(complex(got_amp), amp, abs(amp), RTOL, "tn_config amplitude")
+            if e:
+                return e
+            if abs(float(omega) - om) > RTOL * om:
+                return (f"omega = {float(omega):.10g} but the product of the exact conditional probabilities of the sampled "
+                        f"values is {om:.10g}")
+            return None
+
+        cx.check("sample_d2bp: configuration in range, tn_config is its amplitude, omega == exact probability under |psi|^2",
+                 params, thunk, nontrivial=n > 1)
+
+
+# ----------------------------------------------------------------------------------------------
+# schedule independence (systematic option grid on one network, messages compared too)
+# ----------------------------------------------------------------------------------------------
+
+def canon_message(m):
+    m = np.asarray(m)
+    if m.ndim >= 2 and m.shape[0] == m.shape[-1] and m.ndim == 2:
+        tr = np.trace(m)
+        return m / tr if tr != 0 else m
+    k = int(np.argmax(np.abs(m.reshape(-1))))
+    return m / m.reshape(-1)[k]
+
+
+def messages_of(bp, flavour):
+    if flavour == "HV1BP":
+        return bp.get_messages_dense()
+    if flavour in ("L1BP", "L2BP"):
+        return {k: t.data for k, t in bp.messages.items()}
+    return dict(bp.messages)
+
+
+SCHEDULES = [dict(update=u, damping=d, local_convergence=lc, init=i)
+             for u in ("sequential", "parallel") for d in (0.0, 0.3, 0.7) for lc in (False, True)
+             for i in ("default", "uniform", "random")]
+
+
+def build_bp(qbp, flavour, tn, sched, site_tags, fill, dtype):
+    kw = dict(damping=sched["damping"])
+    if flavour != "HV1BP":
+        kw["update"] = sched["update"]
+    if flavour in ("D1BP", "L1BP", "D2BP", "L2BP"):
+        kw["local_convergence"] = sched["local_convergence"]
+    if flavour in ("L1BP", "L2BP"):
+        kw["site_tags"] = site_tags
+    if sched["init"] != "default":
+        if flavour in ("D1BP", "HD1BP", "HV1BP"):
+            kw["messages"] = fill
+        elif flavour == "L1BP":
+            kw["message_init_function"] = fill
+        elif flavour == "D2BP":
+            ms = {}
+            for ix, tids in tn.ind_map.items():
+                if len(tids) == 2:
+                    for tid in tids:
+                        d = tn.ind_size(ix)
+                        ms[ix, tid] = np.eye(d, dtype=dtype) if sched["init"] == "uniform" else \
+                            (np.diag(fill((d,))) + 0.1).astype(dtype)
+            kw["messages"] = ms
+    cls = getattr(qbp, flavour)
+    return cls(tn, **kw)
+
+
+@driver("C14", "schedule-independence", chunks=6, timeout=200,
+        bound="all six flavours, one acyclic network per (flavour, kind, size in {3,5,8}, data kind), double precision; "
+              "every schedule in update {sequential, parallel} x damping {0, 0.3, 0.7} x local_convergence {off, on} x initial "
+              "messages {default, uniform, random positive} (quick: a deterministic third of them): converges within "
+              "max_iterations >> diameter, value == brute-force reference (rtol 1e-6) and every message, rescaled to "
+              "largest entry 1 (trace 1 for two-norm matrices), equals the message of the plain schedule (sequential, "
+              "undamped, no local convergence, default initialisation) to 1e-6")
+def schedules(cx):
+    import quimb.tensor as qtn
+    import quimb.tensor.belief_propagation as qbp
+
+    flavours = ["D1BP", "HD1BP", "HV1BP", "L1BP", "D2BP", "L2BP"]
+    sizes_n = [3, 6] if cx.quick else [3, 5, 8]
+    for flavour in flavours:
+        kinds = ["chain", "star", "tree", "forest"] + (["hyper", "hyperstar"] if flavour in ("HD1BP", "HV1BP") else [])
+        for kind, n, data in itertools.product(kinds, sizes_n, ["pos", "signed", "complex"]):
+            seed = int(cx.rng.integers(1 << 31))
+            if flavour in ("D2BP", "L2BP"):
+                c = make_two_norm_case(seed, flavour, kind, n, data, single=False)
+                if c is None:
+                    continue
+                inds, sizes, arrays, exponent, groups, dtype = (c["inds"], c["sizes"], c["arrays"], c["exponent"],
+                                                               c["groups"], c["dtype"])
+                want, scale = c["norm2"], c["norm2"]
+                size1 = c["params"]["size1_labels"]
+            else:
+                c = make_one_norm_case(seed, flavour, kind, n, data)
+                if c is None:
+                    continue
+                inds, sizes, arrays, ref, _, _, _, groups, _, dtype, single, exponent, p1 = c
+                if p1["n_scalars"] and flavour == "HV1BP":
+                    continue  # recorded separately (rank-0 tensors are ignored by HV1BP)
+                if single:
+                    dtype = dtype_for(data)
+                    arrays = [a.astype(dtype) for a in arrays]
+                    ref = Ref(inds, sizes, arrays, exponent)
+                want, scale = ref.value, ref.zabs
+                size1 = p1["size1_labels"]
+            site_tags = sorted({f"G{g}" for g in groups}) if groups is not None else None
+            for k, sched in enumerate(SCHEDULES):
+                if flavour == "HV1BP" and (sched["update"] == "sequential" or sched["local_convergence"]):
+                    continue
+                if flavour == "HD1BP" and sched["local_convergence"]:
+                    continue
+                if flavour == "L2BP" and sched["init"] != "default":
+                    continue
+                if cx.quick and (k + n) % 3:
+                    continue
+                if not cx.mine():
+                    continue
+                if cx.out_of_time():
+                    cx.inconclusive.append("schedule-independence: time budget exhausted")
+                    return
+                fseed = int(np.random.default_rng([seed, k]).integers(1 << 30))
+                params = dict(flavour=flavour, kind=kind, n=n, data=data, seed=seed, size1_labels=size1, **sched)
+
+                def thunk(inds=inds, sizes=sizes, arrays=arrays, exponent=exponent, groups=groups, dtype=dtype,
+                          want=want, scale=scale, sched=sched, flavour=flavour, site_tags=site_tags, fseed=fseed):
+                    tn = build_tn(qtn, inds, sizes, arrays, exponent, groups=groups)
+                    plain = dict(update="parallel" if flavour == "HV1BP" else "sequential", damping=0.0,
+                                 local_convergence=False, init="default")
+                    bp0 = build_bp(qbp, flavour, tn, plain, site_tags, None, dtype)
+                    bp0.run(max_iterations=60 + 10 * len(inds), tol=TOL_RUN)
+                    if not bp0.converged:
+                        return "the plain schedule did not converge"
+                    fill = make_init(np.random.default_rng(fseed), sched["init"], dtype) if sched["init"] != "default" \
+                        else None
+                    bp = build_bp(qbp, flavour, tn, sched, site_tags, fill, dtype)
+                    info = {}
+                    o = dict(damping=sched["damping"])
+                    bp.run(max_iterations=max_its(o, len(inds)), tol=TOL_RUN, info=info)
+                    e = check_converged(info, max_its(o, len(inds)))
+                    if e:
+                        return e
+                    e = cmp_value(as_value(bp.contract()), want, scale, RTOL, f"{flavour} value under this schedule")
+                    if e:
+                        return e
+                    m0, m1 = messages_of(bp0, flavour), messages_of(bp, flavour)
+                    if set(m0) != set(m1):
+                        return "different message keys"
+                    for key in m0:
+                        a, b = canon_message(m0[key]), canon_message(m1[key])
+                        e = cmp_array(b, a, 1e-6, f"message {key} (rescaled) vs the plain schedule", scale=1.0)
+                        if e:
+                            return e
+                    return None
+
+                check2(cx, "BP result does not depend on the schedule: value exact and messages equal those of the plain "
+                       "schedule up to scale", params, thunk)
